@@ -53,7 +53,8 @@ def gen_leaf(r) -> dict:
         base = r.choice(["v", "s", "xs", "n", "e"])
         chain = []
         for _ in range(r.randint(1, 2)):
-            f = r.choice([("upper", None), ("default", {"t": "str", "body": r.choice(["x y", "z"])}), ("add", {"t": "leaf", "text": "n"}), ("length", None), ("join", {"t": "str", "body": ", "})])
+            f = r.choice([("upper", None), ("default", {"t": "str", "body": r.choice(["x y", "z"])}), ("add", {"t": "leaf", "text": "n"}), ("length", None), ("join", {"t": "str", "body": ", "}),
+                          ("default", {"t": "trans", "body": r.choice(["Monday", "t u"])}), ("default_if_none", {"t": "trans", "body": "z"})])
             chain.append(f)
         return {"t": "filter", "base": base, "chain": chain}
     inner = r.choice(["{{ v }}", "{{ n|add:1 }}", "a {{ v }}", "{% lorem 2 w %}", "{{ v }}{{ n }}", "{# c #}x"])
@@ -240,7 +241,7 @@ def denote_leaf(leaf: dict, ctx) -> Any:
         for name, arg in leaf["chain"]:
             s += "|" + name
             if arg is not None:
-                s += ":" + (('"' + arg["body"] + '"') if arg["t"] == "str" else arg["text"])
+                s += ":" + (('"' + arg["body"] + '"') if arg["t"] == "str" else ('_("' + arg["body"] + '")') if arg["t"] == "trans" else arg["text"])
         return stock_leaf(s, ctx)
     if t == "dyn":
         inner = leaf["inner"].strip()
